@@ -2,12 +2,16 @@
 * Unless explicitly stated otherwise all files in this repository are licensed under the Apache-2.0 License.
 * This product includes software developed at Datadog (https://www.datadoghq.com/). Copyright 2022 Datadog, Inc.
 **/
+use swc_common::Span;
 use swc_ecma_ast::*;
 use swc_ecma_visit::VisitMutWith;
 
 use crate::{
     transform::assign_add_transform::AssignOp::Assign,
-    visitor::operation_transform_visitor::OperationTransformVisitor,
+    visitor::{
+        ident_provider::{IdentKind, IdentProvider},
+        operation_transform_visitor::OperationTransformVisitor,
+    },
 };
 
 use super::{binary_add_transform::BinaryAddTransform, transform_status::TransformResult};
@@ -39,10 +43,19 @@ impl AssignAddTransform {
                     }
                     _ => assign.right.clone(),
                 };
+                // `O.p += e` must evaluate O (and a computed key) once: the target becomes
+                // `(t0 = O).p` / `(t0 = O)[t1 = K]` and the value is read back through the temporaries
+                let (target, left_operand) = match left_expr {
+                    SimpleAssignTarget::Member(member) => {
+                        split_member_target(member, &span, opv.ident_provider)
+                    }
+                    _ => (assign.left.clone(), left_expr.clone().into()),
+                };
+
                 let binary = Expr::Bin(BinExpr {
                     span,
                     op: BinaryOp::Add,
-                    left: left_expr.clone().into(),
+                    left: left_operand,
                     right,
                 });
 
@@ -55,7 +68,7 @@ impl AssignAddTransform {
                     let new_assign = AssignExpr {
                         span,
                         op: Assign,
-                        left: assign.left.clone(),
+                        left: target,
                         right: Box::new(result.expr.unwrap()),
                     };
                     TransformResult::modified(new_assign)
@@ -65,4 +78,63 @@ impl AssignAddTransform {
             }
         }
     }
+}
+
+fn is_simple_target_part(expr: &Expr) -> bool {
+    expr.is_ident() || expr.is_this() || expr.is_lit()
+}
+
+// hoists `expr` into a new temporary and returns (`(tN = expr)`, `tN`)
+fn hoist(expr: &Expr, span: &Span, ident_provider: &mut dyn IdentProvider) -> Option<(Expr, Expr)> {
+    let mut assignations = Vec::new();
+    let ident = ident_provider.get_temporal_ident_used_in_assignation(
+        expr,
+        &mut assignations,
+        span,
+        IdentKind::Expr,
+    )?;
+    let assignation = assignations.pop()?;
+    Some((
+        Expr::Paren(ParenExpr {
+            span: *span,
+            expr: Box::new(assignation),
+        }),
+        Expr::Ident(ident),
+    ))
+}
+
+fn split_member_target(
+    member: &MemberExpr,
+    span: &Span,
+    ident_provider: &mut dyn IdentProvider,
+) -> (AssignTarget, Box<Expr>) {
+    let mut target = member.clone();
+    let mut read = member.clone();
+
+    if !is_simple_target_part(&member.obj) {
+        if let Some((assignation, ident)) = hoist(&member.obj, span, ident_provider) {
+            target.obj = Box::new(assignation);
+            read.obj = Box::new(ident);
+        }
+    }
+
+    if let MemberProp::Computed(computed) = &member.prop {
+        if !is_simple_target_part(&computed.expr) {
+            if let Some((assignation, ident)) = hoist(&computed.expr, span, ident_provider) {
+                target.prop = MemberProp::Computed(ComputedPropName {
+                    span: computed.span,
+                    expr: Box::new(assignation),
+                });
+                read.prop = MemberProp::Computed(ComputedPropName {
+                    span: computed.span,
+                    expr: Box::new(ident),
+                });
+            }
+        }
+    }
+
+    (
+        AssignTarget::Simple(SimpleAssignTarget::Member(target)),
+        Box::new(Expr::Member(read)),
+    )
 }
